@@ -1,14 +1,16 @@
 //! R — one iteration of the receiver loop of the REAL `Receiver::exec`, de-asynced in the scratch tree
 //! (stubs/batcher.toml exec-*: `async fn` -> `fn`, `.await` -> poll-once `block_on`), from an ARBITRARY state.
 //!
-//! The receiver touches the shared state in exactly one critical section per loop iteration (asserted: the
-//! acquisition counter), so an iteration is one atomic step on the shared state followed by local work.
+//! The receiver touches the shared state in exactly one critical section per loop iteration: everything the
+//! iteration does (take callbacks, every processor attempt, retry waits, flush callbacks) is observed to be
+//! complete when the state lock is acquired for the SECOND time (shim hook), and the snapshots taken inside
+//! `on_batch` assert that the lock is not held while processing. So an iteration is one atomic step on the shared
+//! state followed by local work, and is checked from an arbitrary pre-state like the sender steps.
 //! Environment: `on_batch` records its argument and returns a ready future with a symbolic outcome
-//! {Ok, Err no-retry, Err retry(any remainder of <= 2 items, possibly empty)}; the panic plan makes any of the guarded
-//! calls (take callbacks, on_batch itself, the poll of its future, flush callbacks) panic; `wait` records the
-//! requested delay. At the receiver's SECOND acquisition the hook records the state after iteration 1 and then
-//! closes and empties the channel (models: sender dropped, nothing sent meanwhile), so that the second iteration
-//! is the shutdown step and `exec` returns.
+//! {Ok, Err no-retry, Err retry(any remainder, possibly empty)}; the panic plan makes any of the guarded calls
+//! (take callbacks, on_batch itself, the poll of its future, flush callbacks) panic; `wait` records the
+//! requested delay. The post-conditions are checked in the hook at the second acquisition (see `hook`), which is
+//! either the next swap or `Receiver::drop` after `exec` returned.
 //!
 //! C06: the batch handed to the processor is the whole pre-queue in order; the pending queue is empty after the
 //!      swap; a retry re-delivers exactly the remainder the processor returned and nothing else.
@@ -327,17 +329,30 @@ fn check_iteration(ctx: Ctx, post: v::Snapshot) {
     kani::cover!(!(ne && panics && nf >= 1) || (pr[2] == 0 && processed == 1), "flush callback panics after a processed batch");
 }
 
-#[kani::proof]
-#[kani::unwind(6)]
-#[kani::stub(emit_batcher::Capacity::next, capacity_next_stub)]
-pub fn c06c07c08_q_r_exec_probe_a() {
-    // cheapest: non-empty batch, no watchers, no retry budget, no panics
-    exec_step(1, 2, 0, 0, 0, false, 0);
+macro_rules! exec_harness {
+    ($name:ident, $lo:expr, $hi:expr, $nt:expr, $nf:expr, $k:expr, $panics:expr, $twin:expr) => {
+        #[kani::proof]
+        #[kani::unwind(6)]
+        #[kani::stub(emit_batcher::Capacity::next, capacity_next_stub)]
+        pub fn $name() {
+            exec_step($lo, $hi, $nt, $nf, $k, $panics, $twin);
+        }
+    };
 }
 
-#[kani::proof]
-#[kani::unwind(6)]
-#[kani::stub(emit_batcher::Capacity::next, capacity_next_stub)]
-pub fn c06c07c08_q_r_exec_probe_b() {
-    exec_step(0, 2, 1, 1, 1, false, 0);
-}
+// Measured (16-core box shared with other runs): one harness = 40 s symex + ~5 min SAT, 3.1 M variables, < 5 GB;
+// the cost hardly depends on the branch taken (the state behind the Arc is a byte array for CBMC, so both
+// branches of the swap are always explored), hence few, broad harnesses.
+// quick 1: empty or non-empty hand-off (0..=2 items), one watcher of each kind, one retry allowed, every outcome
+// sequence {Ok, Err no-retry, Err retry(any remainder <= 2 items)}
+exec_harness!(c06c07c08_q_r_exec_iter, 0, 2, 1, 1, 1, false, 0);
+// quick 2: panics anywhere (take callback, processor call, processor future, flush callback); no retry budget
+exec_harness!(c06c07c08_q_r_exec_panics, 0, 2, 1, 1, 0, true, 0);
+// thorough: budget 2; two watchers of each kind; 3 items; panics combined with a retry
+exec_harness!(c06c07c08_t_r_exec_k2, 1, 2, 1, 1, 2, false, 0);
+exec_harness!(c06c07c08_t_r_exec_w2, 0, 2, 2, 2, 1, false, 0);
+exec_harness!(c06c07c08_t_r_exec_len3, 1, 3, 0, 1, 1, false, 0);
+exec_harness!(c06c07c08_t_r_exec_panics_k1, 1, 2, 1, 1, 1, true, 0);
+// mutant twins (must FAIL)
+exec_harness!(c06_w_r_exec_retry_redelivers_original, 1, 2, 0, 0, 1, false, 1);
+exec_harness!(c07c08_w_r_exec_flush_never_run, 0, 1, 0, 1, 0, false, 2);
